@@ -3,9 +3,9 @@ def H(name, clause, kind="complete", tier="quick", timeout=600, replay=True, cov
     d.update(kw)
     return d
 
-def B(name, clause, bound, covers=0, tier="quick", timeout=900):
+def B(name, clause, bound, covers=0, tier="quick", timeout=900, **kw):
     # bucket-level harness (module __verif_c05b::bk): needs kani::stub => no concrete replay
-    return H(name, clause, kind="bounded", tier=tier, timeout=timeout, replay=False, covers=covers, bound=bound, module="__verif_c05b", sub="bk")
+    return H(name, clause, kind="bounded", tier=tier, timeout=timeout, replay=False, covers=covers, bound=bound, module="__verif_c05b", sub="bk", **kw)
 
 BUCKET = "metrics-util/src/storage/bucket.rs"
 
@@ -73,6 +73,8 @@ PLAN = {
               bound="n <= 2 pushes; sequential; defer_unchecked leaked", covers=3),
             B("c05b_seq_reclaim", "value type with destructor: push never drops; clear_with hands each value out once; nothing destroyed before/while handed out; each value destroyed exactly once afterwards; second clear destroys nothing",
               bound="n <= 2 pushes; sequential; epoch schedule = destructors run immediately", covers=2),
+            B("c05b_reclaim_only_deferred", "RECLAMATION: clear_with over a chain of 33 quiesced blocks hands every detached block to the epoch guard (one full batch of 32 + the remainder) and frees none itself: with the epoch held back (defer_unchecked leaks) a reader pinned before the clear can still dereference the first, the 32nd and the last block",
+              bound="one designed chain (33 empty blocks); sequential; epoch never advances", covers=0, timeout=2400, mem_gb=40),
             B("c05b_straggler_clear", "state A (old block full, slot 63 claimed but unpublished, behind a fresh tail with k values): clear_with never hands a block out while a claimed slot is unpublished; after the straggler finishes it hands out the k tail values then ALL 64 of the old block in push order; bucket empty afterwards",
               bound="one designed state: k in {0,1}, old write in 64..=usize::MAX; straggler completes at the 1st or 2nd yield of the reader", covers=2),
             B("c05b_straggler_snapshot", "state A: is_empty false; data_with never hands a block out while a claimed slot is unpublished; hands out the k tail values then ALL 64 of the old block in push order; takes nothing",
